@@ -188,7 +188,8 @@ def c05(pid, tier, seed):
                 "overlapping imports) against a reference composition built from swc-parsed parts; (b) real T::export() in every order and every "
                 "prefix per shared file, plus re-export; (c) barrier-released concurrent exports with seeded sleeps at the probe points, event-log "
                 "mutual-exclusion invariant and final-bytes comparison; thorough: part (c) again under Miri (12 processes, seeded preemptive scheduler, "
-                "undefined-behaviour / data-race / deadlock detection). distinct_nontrivial = distinct (part, file-or-synthetic class signature, "
+                "undefined-behaviour / data-race / deadlock detection) and, with the `format` feature, every order of real exports per shared file "
+                "(no error or panic, the file parses, declares each type once, is the same for every order). distinct_nontrivial = distinct (part, file-or-synthetic class signature, "
                 "set size) combinations + distinct lock-acquisition orders observed")
     chk.assumptions = ["merge hook = the function export_and_merge calls", "probe points do not change behaviour (they only log / sleep)"]
     shards = min(C.NCPU, 8 if tier == "quick" else 16)
@@ -229,6 +230,21 @@ def c05(pid, tier, seed):
         if lock_orders < 20:
             chk.note_inconclusive(f"only {lock_orders} distinct lock-acquisition orders observed")
         if tier == "thorough":
+            # the `format` feature rewrites every file text before it is merged: orders of real exports with the weaker oracle
+            binf = build_fixed(("format",))
+            resf = run_sharded(binf, "C05", seed, tier, min(C.NCPU, 8), "c05fmt", extra=["--only", "orders"])
+            runs_ok(chk, resf, "C05")
+            for r in resf:
+                for e in r["events"]:
+                    if e.get("ev") == "summary" and e.get("part") == "orders":
+                        chk.add_eval(e["histories"])
+                        chk.hist("format_feature", "orders", e["histories"])
+                        if not e.get("format"):
+                            chk.note_inconclusive("the format build of the fixed crate does not have the format feature")
+                    elif e.get("ev") == "fail":
+                        cls = sorted(set(e.get("class") or []))
+                        chk.violation(f"C05|format|{e.get('kind')}|{e.get('origin')}", f"format feature: {e.get('kind')} ({e.get('origin')}, {e.get('order')}) "
+                                      f"{e.get('what', '')}", e, tags=cls + ["format", e.get("kind")])
             miri_supplement(chk, seed)
     finally:
         cleanup_scratch()
